@@ -116,6 +116,11 @@ def fixed_geometry(rng, name):
     if name == "H4sq":
         d = round(rng.uniform(0.9, 1.4), 3)
         return [("H", (0, 0, 0)), ("H", (0, 0, d)), ("H", (0, d, 0)), ("H", (0, d, d))]
+    if name == "H4rect":
+        # nearly square: the frontier orbitals are almost degenerate and the lowest state of the S_z = 0 sector of the
+        # active space is the M_s = 0 component of a triplet, not a singlet
+        d = round(rng.uniform(0.95, 1.25), 3)
+        return [("H", (0, 0, 0)), ("H", (0, 0, d)), ("H", (0, round(d * rng.choice([1.02, 1.03, 1.04]), 3), 0)), ("H", (0, round(d * 1.03, 3), d))]
     if name == "BeH2":
         return [("Be", (0, 0, 0)), ("H", (0, 0, s(1.3))), ("H", (0, 0, -s(1.3)))]
     raise KeyError(name)
@@ -130,6 +135,7 @@ SYSTEMS = [
     ("H4+", ["H"] * 4, 1, 1, [None, 1, [3], [0, 3]], [None, [[0], []], [[3], [0]], [[0], [0]]]),
     ("H4t", ["H"] * 4, 0, 2, [None, [0], [3], 1], [None, [[0], []], [[3], [3]], [[0], [0]]]),
     ("H4sq", "H4sq", 0, 0, [None, [0]], [None]),
+    ("H4rect", "H4rect", 0, 0, [[0], [3], [0, 3]], []),
     ("HeH+", "HeH+", 1, 0, [None], [None]),
     ("LiH", "LiH", 0, 0, [[0, 5], [0, 3, 4], 2, [0, 1], [1, 2, 3]], [[[0, 5], [0, 4]], [[0], [0, 5, 4]], [[0, 1], [0, 5]]]),
     ("LiH+", "LiH", 1, 1, [[0, 5], [0, 4]], [[[0, 5], [0, 4]], [[0], [5, 4]], [[0, 3], [0, 1]]]),
@@ -352,6 +358,8 @@ def run(ctx):
             chosen.append(j)
     # high-spin restricted references with frozen orbitals exercise the CAS branch of the classical solver: every run
     chosen += [j for j in jobs if j not in chosen and j[0][3] >= 2 and not j[1] and j[2] is not None]
+    # triplet ground state below the closed-shell reference, with frozen orbitals: every run
+    chosen += [j for j in jobs if j not in chosen and j[0][0] == "H4rect"]
     extra = [j for j in jobs if j not in chosen]
     chosen += extra[:ctx.n(6, len(extra))]
     for (sd, uhf, f) in chosen:
